@@ -1415,6 +1415,58 @@ func (b *Bounds) stableFieldLoads() [][]ssa.Value {
 			}
 		}
 	}
+	// store-to-load forwarding: a load that a store to the same object and field dominates, with no
+	// other writer of the field (and no re-evaluation of the stored value) in between, yields the
+	// stored value.
+	for _, blk := range b.Fn.Blocks {
+		for _, in := range blk.Instrs {
+			st, ok := in.(*ssa.Store)
+			if !ok {
+				continue
+			}
+			fa, ok := st.Addr.(*ssa.FieldAddr)
+			if !ok {
+				continue
+			}
+			k := key{fa.X, fa.Field}
+			loads := groups[k]
+			if len(loads) == 0 {
+				continue
+			}
+			if _, _, isLen := lenTerm(st.Val); !isLen && !isIntVal(st.Val) {
+				continue
+			}
+			def, _ := st.Val.(ssa.Instruction)
+			for _, ld := range loads {
+				if !InstrDominates(st, ld) {
+					continue
+				}
+				clean := true
+				for _, wi := range writers[fkey[k]] {
+					if wi == ssa.Instruction(st) {
+						continue
+					}
+					if in2, _ := Reach(After(st), IsInstr(wi), nil); in2 == nil {
+						continue
+					}
+					if in2, _ := Reach(After(wi), IsInstr(ld), nil); in2 != nil {
+						clean = false
+						break
+					}
+				}
+				if clean && def != nil {
+					if in2, _ := Reach(After(st), IsInstr(def), nil); in2 != nil {
+						if in3, _ := Reach(After(def), IsInstr(ld), nil); in3 != nil {
+							clean = false
+						}
+					}
+				}
+				if clean {
+					b.stable = append(b.stable, []ssa.Value{st.Val, ld})
+				}
+			}
+		}
+	}
 	return b.stable
 }
 
